@@ -126,6 +126,9 @@ struct Stats {
     evaluations: u64,
     nontrivial_evals: u64,
     discarded: u64,
+    /// why cases were discarded (reason text with digits and quoted parts collapsed), so that a generator whose
+    /// domain silently shrinks shows up in the evidence
+    discard_reasons: BTreeMap<String, u64>,
     excluded_known: u64,
     distinct: BTreeSet<u64>,
     labels: BTreeMap<String, u64>,
@@ -346,7 +349,14 @@ impl Check {
             *st.labels.entry(l.clone()).or_insert(0) += 1;
         }
         match &rep.outcome {
-            Outcome::Discard(_) => st.discarded += 1,
+            Outcome::Discard(why) => {
+                st.discarded += 1;
+                let mut key: String = why.chars().take_while(|c| *c != ':' && *c != '"' && *c != '`').map(|c| if c.is_ascii_digit() { '#' } else { c }).take(80).collect();
+                if st.discard_reasons.len() >= 40 && !st.discard_reasons.contains_key(&key) {
+                    key = "(other)".into();
+                }
+                *st.discard_reasons.entry(key).or_insert(0) += 1;
+            }
             Outcome::ExcludedKnown(_) => st.excluded_known += 1,
             _ => {}
         }
@@ -708,6 +718,7 @@ impl Check {
                 "samples": st.samples,
                 "label_histogram": st.labels,
                 "discarded": st.discarded,
+                "discard_reasons": st.discard_reasons,
                 "excluded_known": st.excluded_known,
                 "known_finding_hits": st.known_hits,
                 "sections": st.sections,
